@@ -804,6 +804,8 @@ static void mip_program(Env& e, Basics& b) {
   int steps = (int) t.range(3, 10);
   for (int s = 0; s < steps && !t.exhausted(); ++s) {
     int op = t.weighted({14, 8, 8, 6, 8, 12, 10, 8, 6, 5, 5, 5, 5}); size_t d = x.space_dimension();
+    // branch-and-bound need not terminate on unbounded problems with integer variables (base library): no solving then
+    if (!x.integer_space_dimensions().empty() && (op == 5 || op == 6 || op == 7 || op == 12)) op = 8;
     switch (op) {
     case 0: { PCon k; if (!b.gen_con(k, d, t.chance(5), &txt)) break; c.log << "  add_constraint " << txt << "\n"; e.both("ppl_MIP_Problem_add_constraint", "mip_add", [&] { return ppl_MIP_Problem_add_constraint(h, k.h.k()); }, [&] { x.add_constraint(k.x); return 0; }); k.h.free_(e); break; }
     case 1: { PCs cs; b.gen_cs(cs, d, 3, t.chance(5), &txt); c.log << "  add_constraints " << txt << "\n"; e.both("ppl_MIP_Problem_add_constraints", "mip_add", [&] { return ppl_MIP_Problem_add_constraints(h, cs.h.k()); }, [&] { x.add_constraints(cs.x); return 0; }); cs.h.free_(e); break; }
@@ -1597,8 +1599,7 @@ struct C20_CAT(Prog_, DOM_NAME, , ) {
     if (rc == PPL_TIMEOUT_EXCEPTION && a1 == 0) {   // expired: the interface resets an expired timeout itself (CATCH_ALL); the same query on an identical copy must now complete
       c.tag("timeout expired");
       int r2 = e.ccall(OPN(is_bounded), [&] { return OPF(is_bounded)(w2->h.k()); }); int x2 = e.expect([&] { return w2->x.is_bounded() ? 1 : 0; });
-      if (!vf::kf("KF-C20-1")) c.check("timeout.state_after_expiry", r2 == x2, [&] { return "after a deterministic timeout expired (and before any reset) " + std::string(OPN(is_bounded)) + " on an identical copy returned " + std::to_string(r2) + " (" + g_err.desc + "), C++ gives " + std::to_string(x2); });
-      else if (r2 != x2) c.excluded("KF-C20-1");
+      c.check("timeout.state_after_expiry", r2 == x2, [&] { return "after a deterministic timeout expired (and before any reset) " + std::string(OPN(is_bounded)) + " on an identical copy returned " + std::to_string(r2) + " (" + g_err.desc + "), C++ gives " + std::to_string(x2); });
     }
     int r1 = e.ccall("ppl_reset_deterministic_timeout", [&] { return ppl_reset_deterministic_timeout(); }); c.check("timeout.reset", r1 == 0, "ppl_reset_deterministic_timeout failed");
     { std::unique_ptr<Obj> v(clone(o, false)); e.both(OPN(is_bounded), "timeout_after_reset", [&] { return OPF(is_bounded)(v->h.k()); }, [&] { X cp(o.x); return cp.is_bounded() ? 1 : 0; }); v->h.free_(e); }
